@@ -114,6 +114,13 @@ impl<V> BTreeMap<u64, V> {
             None => btree_view(*self).dom() =~= vstd::set::Set::<u64>::empty(),
             Some((k, v)) => btree_view(*self).contains_key(*k) && *k == btree_max_key(*self) && btree_view(*self)[*k] == *v,
         } { unimplemented!() }
+    /// the entry under the SMALLEST key
+    #[verifier::external_body]
+    pub fn first_key_value(&self) -> (r: Option<(&u64, &V)>)
+        ensures match r {
+            None => btree_view(*self).dom() =~= vstd::set::Set::<u64>::empty(),
+            Some((k, v)) => btree_view(*self).contains_key(*k) && btree_view(*self)[*k] == *v && forall|k2: u64| btree_view(*self).contains_key(k2) ==> *k <= k2,
+        } { unimplemented!() }
     #[verifier::external_body]
     pub fn is_empty(&self) -> (r: bool) ensures r == (btree_view(*self).dom() =~= vstd::set::Set::<u64>::empty()) { unimplemented!() }
     #[verifier::external_body]
@@ -158,6 +165,8 @@ impl<V> HashMap<u64, V> {
     #[verifier::external_body]
     pub fn clear(&mut self) { unimplemented!() }
 }
+/// u64::abs_diff (std documentation)
+pub assume_specification [u64::abs_diff] (a: u64, b: u64) -> (r: u64) ensures r == (if a >= b { a - b } else { b - a });
 /// slice::reverse (std documentation): the elements in reverse order
 pub assume_specification<T> [<[T]>::reverse] (s: &mut [T])
     ensures final(s)@ == old(s)@.reverse();
